@@ -14,7 +14,9 @@ Open Scope Z_scope.
 
 (* ---------- representation choices (part of the translation table, DESIGN 2.1) ----------
    float32 / float64  : their IEEE-754 bit pattern as a Z (uint32 / uint64); arithmetic on them is oracle only
-   ptr big.Float       : an opaque carrier [bigfloat]
+   ptr big.Float       : an opaque carrier [bigfloat] for the VALUE it holds; the precision a destination big.Float was
+                         configured with before the call (SetPrec; 0 = not set) is an input of its own, carried by
+                         the destination constructor [D_pbigfloat isnil prec] and handed to the SetFloat64 oracle
    time.Time           : the instant, as (unix seconds, nanoseconds within the second)
    time.Duration       : int64 nanoseconds *)
 Definition bigfloat := (Z * Z)%type.
@@ -36,14 +38,16 @@ Inductive goval : Type :=
 | G_nil                    (* untyped nil *)
 | G_other.                 (* any Go type that no switch mentions *)
 
-(* destinations: a pointer of each type ([true] = the pointer itself is nil) *)
+(* destinations: a pointer of each type ([true] = the pointer itself is nil).  A big.Float destination also carries the
+   precision it has when the call starts (big.Float.Prec(): 0 for new(big.Float), 53 for big.NewFloat, or what SetPrec set):
+   big.Float.SetFloat64 rounds to it. *)
 Inductive godst : Type :=
 | D_piface (isnil : bool)
 | D_pint (isnil : bool) | D_pint64 (isnil : bool) | D_pint32 (isnil : bool) | D_pint16 (isnil : bool) | D_pint8 (isnil : bool)
 | D_puint (isnil : bool) | D_puint64 (isnil : bool) | D_puint32 (isnil : bool) | D_puint16 (isnil : bool) | D_puint8 (isnil : bool)
 | D_pstring (isnil : bool)
 | D_pfloat32 (isnil : bool) | D_pfloat64 (isnil : bool)
-| D_pbigint (isnil : bool) | D_pbigfloat (isnil : bool)
+| D_pbigint (isnil : bool) | D_pbigfloat (isnil : bool) (prec : Z)
 | D_ptime (isnil : bool) | D_pduration (isnil : bool)
 | D_other.
 
@@ -57,7 +61,8 @@ Record oracles : Type := {
   o_f64_eqb       : Z -> Z -> bool;                      (* == on float64 *)
   o_f64_isnan     : Z -> bool;                           (* math.IsNaN *)
   o_BigFloat_Float64    : bigfloat -> (Z * Z);           (* big.Float Float64() : value bits, accuracy *)
-  o_BigFloat_SetFloat64 : Z -> bigfloat;                 (* big.Float SetFloat64 *)
+  o_BigFloat_SetFloat64 : Z -> Z -> (bigfloat * Z);      (* z.SetFloat64(x) on a z of precision prec (1st argument), x not NaN:
+                                                            value z holds afterwards, z.Acc() afterwards (-1 Below, 0 Exact, +1 Above) *)
   o_TimeParse     : string -> string -> result gotime;   (* time.Parse / ParseInLocation (layout, value) *)
   o_TimeFormat    : gotime -> string -> string           (* time.Time.Format *)
 }.
@@ -170,6 +175,6 @@ Definition dst_isnil (d : godst) : bool :=
   match d with
   | D_piface b | D_pint b | D_pint64 b | D_pint32 b | D_pint16 b | D_pint8 b
   | D_puint b | D_puint64 b | D_puint32 b | D_puint16 b | D_puint8 b
-  | D_pstring b | D_pfloat32 b | D_pfloat64 b | D_pbigint b | D_pbigfloat b | D_ptime b | D_pduration b => b
+  | D_pstring b | D_pfloat32 b | D_pfloat64 b | D_pbigint b | D_pbigfloat b _ | D_ptime b | D_pduration b => b
   | D_other => false
   end.
